@@ -22,9 +22,15 @@ def main():
     args = ap.parse_args()
 
     # pure function of (tree, VERIF_SEED): pin the interpreter's hash seed for this process tree
-    if os.environ.get("PYTHONHASHSEED") != "0":
+    wanted = ("OMP_NUM_THREADS", "OPENBLAS_NUM_THREADS", "MKL_NUM_THREADS", "NUMEXPR_NUM_THREADS", "MALLOC_ARENA_MAX")
+    if os.environ.get("PYTHONHASHSEED") != "0" or any(k not in os.environ for k in wanted):
         env = dict(os.environ)
         env["PYTHONHASHSEED"] = "0"
+        # keep native thread pools and malloc arenas small: the worker processes are the unit of parallelism, and
+        # address-space limits (C13) must not depend on how many cores the machine has
+        for k in ("OMP_NUM_THREADS", "OPENBLAS_NUM_THREADS", "MKL_NUM_THREADS", "NUMEXPR_NUM_THREADS"):
+            env.setdefault(k, "1")
+        env.setdefault("MALLOC_ARENA_MAX", "2")
         os.execve(sys.executable, [sys.executable] + sys.argv, env)
 
     repo = os.environ.get("LIAN_REPO", "/repo")
